@@ -46,6 +46,7 @@ TraceD4 ==
             /\ exp.to = "yiaddr" => o.pyi
             /\ exp.pinned  => o.woob /\ o.ifindex = exp.ifindex                    \* bound interface, else arrival interface
             /\ ~exp.pinned => ~o.woob                                             \* routable destinations are not pinned
+            /\ (o.l2 /\ o.fexpected) => o.frame                                       \* the link-level reply really leaves (whatever its size)
             /\ (o.l2 /\ o.frame) => /\ o.fdmac /\ o.fdip /\ o.fsport = 67 /\ o.fdport = 68
                                    /\ o.fif = exp.ifindex /\ o.fsmac                   \* the frame leaves on THAT interface, from its address
                                    /\ o.fwire /\ o.fpay)                               \* a frame a receiver accepts, carrying the reply
